@@ -435,6 +435,13 @@ def judge_xml(pid):
         feat = feats[0] if len(feats) == 1 else ('+'.join(feats) if feats else 'none')
         save = norm_site(real.get('save'))
         reopen = norm_site(real.get('reopen'))
+        if real.get('sink_failed'):
+            # the destination reported an error part-way: save must report it (whatever the property, a success here is a lie)
+            if save == 'ok':
+                return [('SPECFAIL', '%s:save-reports-success-although-the-sink-failed' % pid.lower(), 'sink failed, save returned Ok')]
+            if not (isinstance(save, str) and save.startswith('panic')):
+                return [('AGREE', '', '')]
+            # a panic is judged like any other panic of save (by feature class) below
         # ---- correspondence (every property that uses this op)
         if save == 'ok':
             if not m.get('dump_ok', True):
